@@ -139,6 +139,19 @@ func runC14(c *Ctx) {
 			c.Check(peerOK && cntOK && fields["Cid"].Op == "param", "C14.N5-event-fields", key+" (success)", snd.Pos(), "event carries the notifier's CID and count parameters and the handler's publisher", "success event fields do not come from the finished sync")
 		})
 	}
+	// a notification must not be droppable: no select offers the event send as one alternative among others
+	for _, f := range c.Funcs(dagsyncPkg) {
+		instrsDeep(f.SSA, func(g *ssa.Function, in ssa.Instruction) {
+			if sel, ok := in.(*ssa.Select); ok {
+				for _, st := range sel.States {
+					if x := c.E(st.Chan); x.Op == "field" && x.Name == "inEvents" && st.Send != nil {
+						c.Bad("C14.N3-who-sends", c.short(topFunc(g).String())+" › event send in select", sel.Pos(),
+							"the event send is one alternative of a select: the notification of a finished sync can be dropped although its latest-synced value was recorded")
+					}
+				}
+			}
+		})
+	}
 	c.Floor("C14.N3-who-sends", 2)
 	c.Floor("C14.N2-latest-before-event", 3)
 	c.Floor("C14.N5-event-fields", 2)
